@@ -44,6 +44,8 @@ pub enum Val {
     Box(Arc<StdMutex<Val>>),
     /// what `(stat name)` returns (the name's hash; field accessors derive values from it)
     Stat(u64),
+    /// `(values a b ...)` on its way to `call-with-values` / `receive` / `let-values`
+    Values(Arc<Vec<Val>>),
 }
 
 #[derive(Debug, Default)]
@@ -319,6 +321,9 @@ const PROCEDURES: &[&str] = &[
     "gmtime", "tm:sec", "tm:min", "tm:hour", "tm:mday", "tm:mon", "tm:year", "tm:wday", "tm:yday", "tm:isdst", "tm:gmtoff", "mktime", "current-time", "getuid", "geteuid",
     "getgid", "getegid", "getpid", "gethostname", "getenv", "getcwd", "file-exists?", "access?", "stat", "lstat", "stat:mtime", "stat:atime", "stat:ctime", "stat:size", "stat:uid",
     "stat:gid", "stat:mode", "stat:perms", "stat:ino", "stat:nlink", "stat:type",
+    "call-with-values", "string-trim", "string-trim-right", "string-trim-both", "string-split", "string-reverse", "string-map", "string-for-each", "string-count",
+    "char-upcase", "char-downcase", "char-alphabetic?", "char-numeric?", "char-whitespace?", "char-upper-case?", "char-lower-case?", "append-map", "list-copy", "vector-map",
+    "vector-copy", "exact->inexact", "inexact->exact", "exact", "inexact", "round", "truncate", "floor", "ceiling", "expt",
     "pair?", "list?", "symbol?", "cadr", "cddr", "caar", "cdar", "assq", "assv", "assoc", "assq-ref", "assv-ref", "assoc-ref", "memq", "memv",
     "current-thread", "try-mutex", "mutex-locked?", "mutex-owner", "call-with-output-string", "open-output-string", "get-output-string", "vector", "vector-ref", "vector-length", "make-vector",
     "vector-set!", "vector-fill!", "list-ref", "min", "max", "abs", "modulo", "remainder",
@@ -1152,6 +1157,40 @@ impl Runtime {
                                     }
                                 }
                             }
+                            "receive" => {
+                                // (receive (a b . rest) expr body ...)
+                                let (Some(formals), Some(expr)) = (items.get(1), items.get(2)) else { return unsupported("malformed receive") };
+                                let lam = Sexp::List([vec![Sexp::Sym("lambda".into()), formals.clone()], items[3..].to_vec()].concat());
+                                let f = self.eval(&lam, env, ctx)?;
+                                let got = self.eval(expr, env, ctx)?;
+                                let list = match got {
+                                    Val::Values(v) => v.to_vec(),
+                                    other => vec![other],
+                                };
+                                return self.apply(&f, list, ctx);
+                            }
+                            "let-values" | "let*-values" => {
+                                let Some(Sexp::List(bs)) = items.get(1) else { return unsupported("malformed let-values") };
+                                let mut inner = env.clone();
+                                for b in bs {
+                                    let Sexp::List(pair) = b else { return unsupported("malformed let-values binding") };
+                                    let (Some(Sexp::List(names)), Some(init)) = (pair.first(), pair.get(1)) else { return unsupported("let-values with a rest formal") };
+                                    let scope = if s == "let-values" { env } else { &inner };
+                                    let got = self.eval(init, scope, ctx)?;
+                                    let list = match got {
+                                        Val::Values(v) => v.to_vec(),
+                                        other => vec![other],
+                                    };
+                                    if list.len() != names.len() {
+                                        return runtime("let-values: number of values does not match the formals");
+                                    }
+                                    for (n, v) in names.iter().zip(list) {
+                                        let Sexp::Sym(n) = n else { return unsupported("let-values formal that is not a symbol") };
+                                        inner = bind(&inner, n, v);
+                                    }
+                                }
+                                return self.eval_body(&items[2..], &inner, ctx);
+                            }
                             "false-if-exception" => {
                                 let mut last = Val::Unspec;
                                 for form in &items[1..] {
@@ -1489,17 +1528,69 @@ impl Runtime {
                         out.push(c);
                         continue;
                     }
-                    match chars.next() {
-                        Some('a') | Some('A') | Some('d') | Some('D') => match rest.next() {
-                            Some(v) => out.push_str(&display_string(v)?),
+                    // prefix parameters: ~5d  ~10a  ~3,'0d  ~@a (modifiers are read and, except width
+                    // and pad character, ignored)
+                    let mut params: Vec<String> = vec![String::new()];
+                    let mut d = chars.next();
+                    loop {
+                        match d {
+                            Some(c) if c.is_ascii_digit() || c == '-' => {
+                                params.last_mut().unwrap().push(c);
+                                d = chars.next();
+                            }
+                            Some(',') => {
+                                params.push(String::new());
+                                d = chars.next();
+                            }
+                            Some('\'') => {
+                                if let Some(p) = chars.next() {
+                                    params.last_mut().unwrap().push('\'');
+                                    params.last_mut().unwrap().push(p);
+                                }
+                                d = chars.next();
+                            }
+                            Some('@') | Some(':') => d = chars.next(),
+                            _ => break,
+                        }
+                    }
+                    let width: usize = params.first().and_then(|p| p.parse().ok()).unwrap_or(0);
+                    let padc: char = params.get(1).and_then(|p| p.strip_prefix('\'')).and_then(|p| p.chars().next()).unwrap_or(' ');
+                    let pad_left = |t: String| -> String {
+                        let n = t.chars().count();
+                        if n >= width { t } else { std::iter::repeat(padc).take(width - n).chain(t.chars()).collect() }
+                    };
+                    let pad_right = |t: String| -> String {
+                        let n = t.chars().count();
+                        if n >= width { t } else { t.chars().chain(std::iter::repeat(' ').take(width - n)).collect() }
+                    };
+                    match d {
+                        Some('a') | Some('A') => match rest.next() {
+                            Some(v) => out.push_str(&pad_right(display_string(v)?)),
                             None => return runtime("format: missing argument"),
                         },
+                        Some('d') | Some('D') => match rest.next() {
+                            Some(v) => out.push_str(&pad_left(display_string(v)?)),
+                            None => return runtime("format: missing argument"),
+                        },
+                        Some('x') | Some('X') | Some('b') | Some('B') => match rest.next() {
+                            Some(Val::Int(i)) => out.push_str(&pad_left(if matches!(d, Some('x') | Some('X')) { format!("{i:x}") } else { format!("{i:b}") })),
+                            Some(other) => return runtime(format!("format: not an integer: {other:?}")),
+                            None => return runtime("format: missing argument"),
+                        },
+                        Some('c') | Some('C') => match rest.next() {
+                            Some(Val::Char(c)) => out.push(*c),
+                            Some(other) => return runtime(format!("format ~c: not a character: {other:?}")),
+                            None => return runtime("format: missing argument"),
+                        },
+                        Some('t') | Some('T') => out.push('\t'),
+                        Some('_') => out.push(' '),
+                        Some('\n') => {}
                         Some('s') | Some('S') => match rest.next() {
                             Some(v) => out.push_str(&write_string(v)?),
                             None => return runtime("format: missing argument"),
                         },
                         Some('o') | Some('O') => match rest.next() {
-                            Some(Val::Int(i)) => out.push_str(&format!("{i:o}")),
+                            Some(Val::Int(i)) => out.push_str(&pad_left(format!("{i:o}"))),
                             Some(other) => return runtime(format!("format ~o: not an integer: {other:?}")),
                             None => return runtime("format: missing argument"),
                         },
@@ -1889,6 +1980,120 @@ impl Runtime {
                 _ => runtime("vector-for-each: expected a procedure and a vector"),
             },
             "values" if args.len() == 1 => Ok(args[0].clone()),
+            "values" => Ok(Val::Values(Arc::new(args))),
+            "call-with-values" => {
+                let (Some(producer), Some(consumer)) = (args.first(), args.get(1)) else { return runtime("call-with-values: expected two procedures") };
+                let got = self.apply(producer, vec![], ctx)?;
+                let list = match got {
+                    Val::Values(v) => v.to_vec(),
+                    other => vec![other],
+                };
+                self.apply(consumer, list, ctx)
+            }
+            "string-trim" | "string-trim-right" | "string-trim-both" => {
+                let t = as_str(args.first().unwrap_or(&Val::Unspec), name)?;
+                s(match name {
+                    "string-trim" => t.trim_start(),
+                    "string-trim-right" => t.trim_end(),
+                    _ => t.trim(),
+                })
+            }
+            "string-split" => {
+                let t = as_str(args.first().unwrap_or(&Val::Unspec), name)?;
+                let Some(Val::Char(c)) = args.get(1) else { return unsupported("string-split with a predicate") };
+                Ok(Val::List(Arc::new(t.split(*c).map(|p| Val::Str(Arc::from(p))).collect())))
+            }
+            "string-reverse" => s(&as_str(args.first().unwrap_or(&Val::Unspec), name)?.chars().rev().collect::<String>()),
+            "string-map" | "string-for-each" => match (args.first(), args.get(1)) {
+                (Some(f), Some(Val::Str(t))) => {
+                    let mut out = String::new();
+                    for c in t.chars() {
+                        let r = self.apply(f, vec![Val::Char(c)], ctx)?;
+                        if name == "string-map" {
+                            match r {
+                                Val::Char(c2) => out.push(c2),
+                                other => return runtime(format!("string-map: procedure returned {other:?}")),
+                            }
+                        }
+                    }
+                    if name == "string-map" { s(&out) } else { Ok(Val::Unspec) }
+                }
+                _ => runtime(format!("{name}: expected a procedure and a string")),
+            },
+            "string-count" => {
+                let t = as_str(args.first().unwrap_or(&Val::Unspec), name)?;
+                let Some(Val::Char(c)) = args.get(1) else { return unsupported("string-count with a predicate") };
+                Ok(Val::Int(t.chars().filter(|x| x == c).count() as i128))
+            }
+            "char-upcase" | "char-downcase" => match args.first() {
+                Some(Val::Char(c)) => Ok(Val::Char(if name == "char-upcase" { c.to_uppercase().next().unwrap_or(*c) } else { c.to_lowercase().next().unwrap_or(*c) })),
+                other => runtime(format!("{name}: not a character: {other:?}")),
+            },
+            "char-alphabetic?" | "char-numeric?" | "char-whitespace?" | "char-upper-case?" | "char-lower-case?" => match args.first() {
+                Some(Val::Char(c)) => Ok(Val::Bool(match name {
+                    "char-alphabetic?" => c.is_alphabetic(),
+                    "char-numeric?" => c.is_numeric(),
+                    "char-whitespace?" => c.is_whitespace(),
+                    "char-upper-case?" => c.is_uppercase(),
+                    _ => c.is_lowercase(),
+                })),
+                other => runtime(format!("{name}: not a character: {other:?}")),
+            },
+            "append-map" => match (args.first(), args.get(1)) {
+                (Some(f), Some(Val::List(l))) => {
+                    let mut out = vec![];
+                    for item in l.iter() {
+                        match self.apply(f, vec![item.clone()], ctx)? {
+                            Val::List(r) => out.extend(r.iter().cloned()),
+                            other => return runtime(format!("append-map: procedure returned {other:?}")),
+                        }
+                    }
+                    Ok(Val::List(Arc::new(out)))
+                }
+                _ => runtime("append-map: expected a procedure and a list"),
+            },
+            "list-copy" => match args.first() {
+                Some(Val::List(l)) => Ok(Val::List(l.clone())),
+                other => runtime(format!("list-copy: not a list: {other:?}")),
+            },
+            "vector-map" => match (args.first(), args.get(1)) {
+                (Some(f), Some(Val::Vector(v))) => {
+                    self.point();
+                    let items = v.lock().unwrap().clone();
+                    let mut out = vec![];
+                    for item in items {
+                        out.push(self.apply(f, vec![item], ctx)?);
+                    }
+                    Ok(Val::Vector(Arc::new(StdMutex::new(out))))
+                }
+                _ => runtime("vector-map: expected a procedure and a vector"),
+            },
+            "vector-copy" => match args.first() {
+                Some(Val::Vector(v)) => {
+                    self.point();
+                    Ok(Val::Vector(Arc::new(StdMutex::new(v.lock().unwrap().clone()))))
+                }
+                other => runtime(format!("vector-copy: not a vector: {other:?}")),
+            },
+            "exact->inexact" | "inexact->exact" | "exact" | "inexact" | "round" | "truncate" | "floor" | "ceiling" => match args.first() {
+                Some(Val::Int(i)) => Ok(Val::Int(*i)),
+                Some(Val::Real(r)) => Ok(match name {
+                    "round" => Val::Int(r.round() as i128),
+                    "truncate" | "inexact->exact" | "exact" => Val::Int(r.trunc() as i128),
+                    "floor" => Val::Int(r.floor() as i128),
+                    "ceiling" => Val::Int(r.ceil() as i128),
+                    _ => Val::Real(*r),
+                }),
+                other => runtime(format!("{name}: not a number: {other:?}")),
+            },
+            "expt" => {
+                let b = as_int(args.first().unwrap_or(&Val::Unspec), name)?;
+                let e = as_int(args.get(1).unwrap_or(&Val::Unspec), name)?;
+                if !(0..=120).contains(&e) {
+                    return unsupported("expt with a large or negative exponent");
+                }
+                Ok(Val::Int(b.checked_pow(e as u32).unwrap_or(i128::MAX)))
+            }
             "identity" => Ok(args.first().cloned().unwrap_or(Val::Unspec)),
             "const" => unsupported("const"),
             "usleep" | "sleep" | "yield" => {
